@@ -25,8 +25,30 @@ func instant(s string) time.Time {
 		panic("bad instant " + s)
 	}
 	q, r := new(big.Int).QuoRem(v, big.NewInt(1000000000), new(big.Int))
-	return time.Unix(q.Int64()-62135596800, r.Int64()).UTC()
+	t := time.Unix(q.Int64()-62135596800, r.Int64())
+	// the same instant in different representations (location pointer, zero struct): the result must not depend on it
+	switch zoneSel % 4 {
+	case 0:
+		t = t.UTC()
+	case 1:
+		t = t.In(time.FixedZone("x", 3600*5))
+	case 2:
+		if v.Sign() == 0 {
+			t = time.Time{}
+		} else {
+			t = t.Local()
+		}
+	case 3:
+		if v.Sign() == 0 {
+			t = time.Time{}.In(time.FixedZone("y", -3600))
+		}
+	}
+	zoneSel++
+	return t
 }
+
+// zoneSel rotates the representation used for the next instant (reset per op line by the `z=` field)
+var zoneSel int
 
 var dsErr = map[error]string{
 	nil: "nil", doublesign.ErrNoConnections: "noconn", doublesign.ErrP2PSyncOngoing: "p2psync",
@@ -41,6 +63,8 @@ func dsignStep(line string) string {
 	for _, w := range f[1:] {
 		kv := strings.SplitN(w, "=", 2)
 		switch kv[0] {
+		case "z":
+			zoneSel = int(Atoi(kv[1]))
 		case "peers":
 			s.PeersNum = int(Atoi(kv[1]))
 		case "thr":
@@ -168,7 +192,7 @@ func genDsign(r *Rand, n int, tier string, w *bufio.Writer) {
 		if r.Chance(1, 4) {
 			op = "par"
 		}
-		fmt.Fprintf(w, "%s peers=%d thr=%d now=%s startup=%s conn=%s synced=%s val=%s created=%s detected=%s\n", op, peers, thr,
+		fmt.Fprintf(w, "%s z=%d peers=%d thr=%d now=%s startup=%s conn=%s synced=%s val=%s created=%s detected=%s\n", op, r.Intn(8), peers, thr,
 			now, stamp(now, thr), stamp(now, thr), stamp(now, thr), stamp(now, thr), stamp(now, thr), stamp(now, thr))
 	}
 }
